@@ -1,17 +1,33 @@
 (* ParProofs.v — proofs about the coordination protocol of the parallel branch-and-bound solver (Par.v, model of
-   ddo/src/implementation/solver/parallel.rs), for EVERY schedule and EVERY number of workers T >= 1.
+   ddo/src/implementation/solver/parallel.rs), for EVERY schedule, EVERY fuel and EVERY number of workers T
+   (upper_bounds sized like the number of workers: the code after the fix of finding D2).
 
-   Configuration covered: no cache, SimpleFringe (abstract priority queue pq_pop).
+   Configuration covered: sc_use_cache = false, sc_nodup = false (SimpleFringe as the abstract priority queue pq_pop).
+   Method: [view] = the observable part of a pstate; [pstep] = relational, case-by-case description of one transition
+   (par_step_cases: par_step refines pstep under the invariant); every invariant is a predicate on views.
 
-   (A) C04  par_step_inv / par_run_inv   : the structural invariant PInv is preserved by every transition
-            par_no_deadlock              : par_run never ends with PDeadlock (no lost wake-up)
-            par_never_crashes            : p_crash stays false
-            complete_only_when_idle      : get_workload answers Complete only when ongoing = 0, the fringe is
-                                           empty and no worker holds a node
-       (any cutoff; assumptions: a compilation does not panic, cut-set nodes have depth <= nb_vars)
-   (B)      par_terminates               : explicit fuel bound fuelP T, no POutOfFuel for any schedule
-   (C) C03  par_optimal / par_optimal_primal : every finished run returns the optimum
-   (D)      the pre-fix defect D2 (upper_bounds sized at construction) as a concrete deadlocking run.  *)
+   (A) property C04, ANY cutoff.  Assumptions (section PartA): a compilation never panics (HA_nocrash) and the cut-set
+       nodes of a relaxed, inexact compilation are well formed with depth <= nb_vars (HA_cut); [good] abstract.
+         PInv                         structural invariant: no crash; ongoing = #busy workers; ongoing_by_layer[d] =
+                                      #busy workers on a node of depth d; |open_by_layer| = |ongoing_by_layer| =
+                                      nb_vars+1; (abort \/ open_by_layer[d] = #fringe nodes of depth d);
+                                      |upper_bounds| = #workers; a parked worker implies ongoing > 0; per-pc facts
+         PInv_init, par_step_inv, par_run_inv
+         par_no_deadlock              par_run never ends with PDeadlock (no lost wake-up)
+         par_never_crashes            p_crash stays false
+         par_maximize_no_deadlock_no_crash, par_no_deadlock_no_crash_plain (instance good := True)
+         complete_only_when_idle      in every reachable state, get_workload answers Complete only if ongoing = 0, the
+                                      fringe is empty, no abort, and no worker is busy or parked
+   (B) termination, cutoff = 0, contracts K0, K3_good, K3_depth, K5:
+         Mu_decreases                 every transition strictly decreases the measure Mu
+         par_terminates               fuel >= fuelP T = S ((T+8) * (S M)^nb_vars + 2 T)  ==>  pr_end = PFinished
+   (C) property C03 (+ warm start), cutoff = 0, contracts K0..K4 as in SolverProofs.v:
+         pq_pop_max                   the abstract queue pops a node with maximal sp_ub (soundness of the
+                                      whole-fringe discard in get_workload)
+         par_optimal, par_optimal_primal   every finished run returns the optimum (presult_ok)
+         par_correct                  (B) + (C)
+   (D) finding D2, module D2: concrete pre-fix runs by vm_compute.  The requested form "reaches PDeadlock" is false of
+       the model (see the comment of part D); the _partial examples show the panic and the wrong result instead. *)
 Require Import DDO.Base DDO.Fringe DDO.FringeProofs DDO.Fringe2 DDO.DP DDO.Cache DDO.Dom DDO.Mdd DDO.Solver DDO.Par.
 Require Import DDO.SolverProofs.
 From Coq Require Import Permutation Arith.
@@ -1440,7 +1456,7 @@ Section ParProofs.
     destruct Hst as [Ew G1 G2 G3 Hv|Ew G1 Hv|Ew G1 G2 G3 Hv|x rest Ew G1 G2 G3 Hv|x rest k Ew G1 G2 G3 G4 Hv
                     |n Ew G1 Hv|n m o c ds polls Ew G1 Hc Hv|n inp m Ew Hv|n m o c ds polls Ew Hc Hv|n inp m Ew Hv
                     |n inp m op' Ew L1 L2 Hv|n ub' Ew Hv|n ea k j Ew G1 G2 Hv];
-      rewrite Hv; unfold Mu, vW, setw;
+      rewrite Hv; unfold Mu, vW, setw, view;
       cbn [v_simple v_ongoing v_open v_obl v_lb v_ub v_sol v_nubs v_abort v_crash v_workers];
       pose proof (Forall_nth_error _ _ _ _ I6 Ew) as Hok; cbn [pc_ok] in Hok;
       pose proof (Forall_nth_error _ _ _ _ B2 Ew) as Hcalm; cbn [calm] in Hcalm;
@@ -1453,15 +1469,18 @@ Section ParProofs.
     - pose proof (sumf_upd_nth (fw T) w (PReadLb1 x) _ _ Ew) as H. cbn [fw] in H.
       rewrite (sumf_perm _ _ _ (pq_pop_perm _ _ _ _ G2)). cbn [sumf]. unfold fnode at 2. unfold AA in *.
       pose proof (wt_pos cfg M x). destruct (wtM x) as [|q]; [lia|]. replace (S q - 1)%nat with q in H by lia. nia.
-    - pose proof (sumf_upd_nth (fw T) w (PNotify n false) _ _ Ew) as H. cbn [fw] in H. lia.
+    - pose proof (sumf_upd_nth (fw T) w (PNotify n false) _ _ Ew) as H. cbn [fw] in H.
+      remember (AA T * (wtM n - 1))%nat as q. lia.
     - destruct Hok as [Hg Hd]. destruct (K0 Restricted _ _ _ _ _ _ _ (or_introl eq_refl) Hg Hd Hc) as [-> Hmc].
-      pose proof (sumf_upd_nth (fw T) w (PUpdate1 n (mk_input cfg Restricted n (p_lb s)) m) _ _ Ew) as H. cbn [fw] in H. lia.
+      pose proof (sumf_upd_nth (fw T) w (PUpdate1 n (mk_input cfg Restricted n (p_lb s)) m) _ _ Ew) as H. cbn [fw] in H.
+      remember (AA T * (wtM n - 1))%nat as q. lia.
     - pose proof (sumf_upd_nth (fw T) w (if dd_is_exact m then PNotify n false else PReadLb2 n) _ _ Ew) as H.
-      destruct (dd_is_exact m); cbn [fw] in H; lia.
+      remember (AA T * (wtM n - 1))%nat as q. destruct (dd_is_exact m); cbn [fw] in H; rewrite <- ?Heqq in H; lia.
     - destruct Hok as [Hg Hd]. destruct (K0 Relaxed _ _ _ _ _ _ _ (or_intror eq_refl) Hg Hd Hc) as [-> Hmc].
-      pose proof (sumf_upd_nth (fw T) w (PUpdate2 n (mk_input cfg Relaxed n (p_lb s)) m) _ _ Ew) as H. cbn [fw] in H. lia.
+      pose proof (sumf_upd_nth (fw T) w (PUpdate2 n (mk_input cfg Relaxed n (p_lb s)) m) _ _ Ew) as H. cbn [fw] in H.
+      remember (AA T * (wtM n - 1))%nat as q. lia.
     - pose proof (sumf_upd_nth (fw T) w (if dd_is_exact m then PNotify n false else PEnqueue n inp m) _ _ Ew) as H.
-      destruct (dd_is_exact m); cbn [fw] in H; lia.
+      remember (AA T * (wtM n - 1))%nat as q. destruct (dd_is_exact m); cbn [fw] in H; rewrite <- ?Heqq in H; lia.
     - destruct Hok as (Hg & Hd & (lb0 & c & ds & polls & Hlb0 & -> & Hc) & Hex & Hev).
       pose proof (sumf_upd_nth (fw T) w (PNotify n false) _ _ Ew) as H. cbn [fw] in H.
       set (cs := drain_cutset (mk_input cfg Relaxed n lb0) m) in *.
@@ -1527,3 +1546,115 @@ Section ParProofs.
 
   End PartBC.
 End ParProofs.
+
+(* Part A without the abstract predicate [good] (instance good := fun _ => True): if no compilation panics and every
+   cut-set node of a relaxed compilation sits on a layer of the problem, then no schedule deadlocks or panics. *)
+Theorem par_no_deadlock_no_crash_plain {St} (st_eqb : St -> St -> bool) (cfg : @sconfig St) :
+  sc_use_cache cfg = false -> sc_nodup cfg = false ->
+  (forall ct n lb c ds polls m out, dd_ct ct -> (sp_depth n <= nb_vars (sc_problem cfg))%nat ->
+     compile st_eqb (mk_input cfg ct n lb) 0 0 c ds polls = (m, out) -> m_crash m = false) ->
+  (forall n lb c ds polls m, (sp_depth n <= nb_vars (sc_problem cfg))%nat ->
+     compile st_eqb (mk_input cfg Relaxed n lb) 0 0 c ds polls = (m, Compiled) -> dd_is_exact m = false ->
+     forall x, In x (drain_cutset (mk_input cfg Relaxed n lb) m) -> (sp_depth x <= nb_vars (sc_problem cfg))%nat) ->
+  forall T primal fuel sched,
+    pr_end (par_maximize st_eqb cfg fuel T T primal sched) <> PDeadlock /\
+    pr_crash (par_maximize st_eqb cfg fuel T T primal sched) = false.
+Proof.
+  intros Hc Hf Hnc Hcut T primal fuel sched.
+  apply (par_maximize_no_deadlock_no_crash st_eqb cfg Hc Hf (fun _ => True)); auto.
+  - intros ct n lb c ds polls m out Hct _ Hd Hcomp. eapply Hnc; eauto.
+  - intros n lb c ds polls m _ Hd Hcomp Hex x Hx. split; [exact I|]. eapply Hcut; eauto.
+Qed.
+
+(* ================================================================== PART D: the repaired defect (finding D2) *)
+(* Before the fix `upper_bounds` was sized with the thread count given at construction, while `with_nb_threads(n)`
+   could spawn more workers: init_pstate 1 2 = vector of size 1, two workers.  The first node handed to worker 1
+   indexes the vector out of bounds AFTER `ongoing += 1`.
+
+   NOTE (statement requested: "reaches PDeadlock with p_crash = true") -- this is FALSE of the model Par.v: the first
+   test of the model's get_workload is `if p_crash s then GWCrash`, so after a panic every other worker leaves at its
+   next get_workload instead of parking for ever, and a parked worker is still woken by the notify of the worker that
+   was busy when it parked.  In the model the defect therefore shows as pr_crash = true with pr_end = PFinished and a
+   wrong result (no value although OPT = 8); the hang of the real code (ongoing never returns to 0) is what the crash
+   flag stands for.  Strongest true variants, on a concrete 3-variable instance, by computation:
+     D2_prefix_crash_partial   : schedule [1] makes the pre-fix model panic (and report no solution);
+     D2_prefix_crash_late_partial : the panic can also happen after worker 0 enqueued a cut-set; the run then
+                                 "finishes" with the sub-optimal incumbent 7 (OPT = 8);
+     D2_prefix_never_deadlocks_bounded : over ALL 2^11 schedule prefixes of length 11 (2 workers, vector of size 1)
+                                 1544 runs panic, 504 finish normally, none deadlocks, none runs out of fuel;
+     D2_fixed                  : with the vector sized like the number of workers the same schedules are fine. *)
+Module D2.
+  Definition pbD : @problem Z := {|
+    nb_vars := 3; init_state := 0; init_value := 0;
+    transition := fun s d => 2 * s + d_val d + 1;
+    transition_cost := fun s _ d =>
+      if Nat.eqb (d_var d) 0 then (if d_val d =? 0 then 1 else 2)
+      else if Nat.eqb (d_var d) 1 then
+        (if s =? 1 then (if d_val d =? 0 then 5 else 1) else (if d_val d =? 0 then 1 else 3))
+      else (if s =? 4 then (if d_val d =? 0 then 0 else 1)
+            else if s =? 5 then (if d_val d =? 0 then 7 else 0) else (if d_val d =? 0 then 2 else 1));
+    next_variable := fun depth _ => if Nat.ltb depth 3 then Some depth else None;
+    domain := fun _ _ => [0; 1];
+    is_impacted_by := fun _ _ => true |}.
+  Definition rlxD : @relaxation Z := {|
+    merge := fun l => fold_right Z.max 0 l;
+    relax := fun _ _ _ _ c => c;
+    fast_upper_bound := fun _ => IMAX |}.
+  Definition cfgD : @sconfig Z := {|
+    sc_flavour := CleanLEL; sc_problem := pbD; sc_relax := rlxD; sc_ranking := Z.compare;
+    sc_domcmp := fun a va b vb => cmp_then (Zcmp va vb) (Z.compare a b); sc_domrule := None; sc_width := 1;
+    sc_use_cache := false; sc_nodup := false; sc_cutoff := 0 |}.
+
+  Definition summary (r : presult) := (pr_end r, pr_crash r, pr_value r).
+
+  (* the sequential solver and the repaired parallel solver find 8 *)
+  Example D2_sequential : r_value (maximize Z.eqb cfgD 100 None) = Some 8.
+  Proof. vm_compute. reflexivity. Qed.
+
+  Example D2_prefix_crash_partial :
+    summary (par_maximize Z.eqb cfgD 100 1 2 None [1%nat]) = (PFinished, true, None).
+  Proof. vm_compute. reflexivity. Qed.
+
+  Example D2_prefix_crash_late_partial :
+    summary (par_maximize Z.eqb cfgD 100 1 2 None [0; 0; 0; 0; 0; 0; 1; 0; 0]%nat) = (PFinished, true, Some 7) /\
+    map fst (pr_trace (par_maximize Z.eqb cfgD 100 1 2 None [0; 0; 0; 0; 0; 0; 1; 0; 0]%nat)) = [0; 0; 0; 0; 0; 0; 1; 0; 0]%nat.
+  Proof. vm_compute. split; reflexivity. Qed.
+
+  Example D2_fixed :
+    summary (par_maximize Z.eqb cfgD 100 2 2 None [1%nat]) = (PFinished, false, Some 8) /\
+    summary (par_maximize Z.eqb cfgD 100 2 2 None [0; 0; 0; 0; 0; 0; 1; 0; 0]%nat) = (PFinished, false, Some 8).
+  Proof. vm_compute. split; reflexivity. Qed.
+
+  Fixpoint scheds (T k : nat) : list (list nat) :=
+    match k with O => [[]] | S k' => flat_map (fun s => map (fun c => c :: s) (seq 0 T)) (scheds T k') end.
+  (* (runs that panicked, runs that finished normally, deadlocks, out of fuel) *)
+  Definition tally (T ctor k : nat) : nat * nat * nat * nat :=
+    fold_left (fun acc s =>
+       let r := par_maximize Z.eqb cfgD 300 ctor T None s in
+       let '(a, b, c, d) := acc in
+       match pr_end r, pr_crash r with
+       | PFinished, true => (S a, b, c, d)
+       | PFinished, false => (a, S b, c, d)
+       | PDeadlock, _ => (a, b, S c, d)
+       | POutOfFuel, _ => (a, b, c, S d)
+       end) (scheds T k) (O, O, O, O).
+
+  Example D2_prefix_never_deadlocks_bounded : tally 2 1 11 = (1544, 504, 0, 0)%nat.
+  Proof. vm_compute. reflexivity. Qed.
+  Example D2_fixed_bounded : tally 2 2 11 = (0, 2048, 0, 0)%nat.
+  Proof. vm_compute. reflexivity. Qed.
+End D2.
+
+Print Assumptions par_step_inv.
+Print Assumptions par_no_deadlock.
+Print Assumptions par_never_crashes.
+Print Assumptions par_maximize_no_deadlock_no_crash.
+Print Assumptions complete_only_when_idle.
+Print Assumptions pq_pop_max.
+Print Assumptions par_optimal.
+Print Assumptions par_optimal_primal.
+Print Assumptions par_terminates.
+Print Assumptions par_correct.
+Print Assumptions par_no_deadlock_no_crash_plain.
+Print Assumptions D2.D2_prefix_crash_partial.
+Print Assumptions D2.D2_prefix_never_deadlocks_bounded.
